@@ -25,9 +25,9 @@ def SecretsOK (g : GState) : Prop :=
     commit leaving epoch k is applied, and removed by a rollback to k) -/
 def NoForkSnapshot (c : Cl) : Prop := ∀ s ∈ c.mgr, s.epoch ≠ epochOf c.g.path
 
-theorem base_of (c : Cl) (hg : c.hasGroup = true) (hr : 1 ≤ c.retention) (hs : SecretsOK c.g) (hm : NoForkSnapshot c) :
+theorem base_of (c : Cl) (hg : c.hasGroup = true) (ha : c.g.active = true) (hr : 1 ≤ c.retention) (hs : SecretsOK c.g) (hm : NoForkSnapshot c) :
     Base c := by
-  refine ⟨hg, hr, ?_, ?_, hm⟩
+  refine ⟨hg, ha, hr, ?_, ?_, hm⟩
   · cases h : alookup (epochOf c.g.path) c.g.secrets with
     | none => exact Or.inl rfl
     | some q =>
@@ -48,7 +48,7 @@ theorem base_of (c : Cl) (hg : c.hasGroup = true) (hr : 1 ≤ c.retention) (hs :
     self-update, with non-zero timestamps, pairwise distinct event numbers, MIP-03 keys and MLS
     ciphertexts (a re-wrapped copy of a commit is the same commit, not a sibling), not yet seen, their
     ciphertexts not yet consumed by the client's ratchet -/
-structure Siblings (c : Cl) (S : List Ev) : Prop where
+structure SiblingsCore (c : Cl) (S : List Ev) : Prop where
   path : ∀ e ∈ S, e.path = c.g.path
   kind : ∀ e ∈ S, ∃ b sw, e.kind = .commit b sw ∧ (isAdmin c.g e.sender || isPureSelfUpdate b sw) = true
   foreign : ∀ e ∈ S, e.sender ≠ c.id
@@ -56,9 +56,28 @@ structure Siblings (c : Cl) (S : List Ev) : Prop where
   distinct : ∀ e1 ∈ S, ∀ e2 ∈ S, e1 ≠ e2 → e1.n ≠ e2.n ∧ (e1.ts, e1.idnum) ≠ (e2.ts, e2.idnum) ∧ e1.cipher ≠ e2.cipher
   unseen : ∀ e ∈ S, getRec c e.n = none
   unconsumed : ∀ e ∈ S, e.cipher ∉ c.g.consumed
+  /-- each was published under the nostr group id in force at the parent state (what `build_message_event` does) -/
+  tag : ∀ e ∈ S, e.tag = c.g.recNid
 
-theorem sibs_of (c : Cl) (S : List Ev) (h : Siblings c S) : Sibs c S where
-  sib := fun e he => ⟨h.path e he, h.kind e he, by simpa using h.foreign e he, h.ts e he, h.unconsumed e he⟩
+/-- … and none of them ROTATES the nostr group id (with a rotating sibling the theorem is false of the code:
+    `single_fork_any_id_full_false`, finding `h-rotation-in-flight`) nor REMOVES the receiver (an eviction is final
+    whatever the commit's rank: `single_fork_any_target_full_false`, finding `evicted-by-losing-commit`) -/
+structure Siblings (c : Cl) (S : List Ev) : Prop extends SiblingsCore c S where
+  keepsId : ∀ e ∈ S, ∀ d sw, e.kind = .commit (.setData d) sw → d.nid = c.g.recNid
+  keepsMe : ∀ e ∈ S, ∀ b sw, e.kind = .commit b sw → removesMe c.id b sw = false
+
+/-- a body that is not an id rotation leaves the id where the record has it (given record = MLS state) -/
+theorem keeps_nid (c : Cl) (hn : c.g.recNid = c.g.nid) (b : Body)
+    (hk : ∀ d, b = .setData d → d.nid = c.g.recNid) : (applyBody (ensureSecret c.g) b).nid = c.g.recNid := by
+  cases b with
+  | selfUpdate => simp [applyBody, hn]
+  | setData d => simp [applyBody, hk d rfl]
+  | removeLeavers who => simp [applyBody, hn]
+  | addMembers who => simp [applyBody, hn]
+
+theorem sibs_of (c : Cl) (S : List Ev) (hn : c.g.recNid = c.g.nid) (h : Siblings c S) : Sibs c S where
+  sib := fun e he => ⟨h.path e he, h.kind e he, by simpa using h.foreign e he, h.ts e he, h.unconsumed e he, h.tag e he,
+    fun b sw hk => keeps_nid c hn b (fun d hd => h.keepsId e he d sw (by rw [hk, hd])), h.keepsMe e he⟩
   inj := by
     intro e1 h1 e2 h2 hk
     by_cases x : e1 = e2
@@ -86,15 +105,16 @@ theorem sibs_of (c : Cl) (S : List Ev) (h : Siblings c S) : Sibs c S where
       * every other delivered sibling has a Failed (3) / EpochInvalidated (4) record: the dedup step
         refuses it from now on. -/
 theorem single_fork_bystander (c : Cl) (S : List Ev) (l : List Ev) (nx : Nat)
-    (hg : c.hasGroup = true) (hr : 1 ≤ c.retention) (hsec : SecretsOK c.g) (hm : NoForkSnapshot c)
+    (hg : c.hasGroup = true) (ha : c.g.active = true) (hr : 1 ≤ c.retention) (hsec : SecretsOK c.g) (hm : NoForkSnapshot c)
+    (hn : c.g.recNid = c.g.nid)
     (hS : Siblings c S) (hl : ∀ e ∈ l, e ∈ S) (hne : l ≠ []) :
     ∃ w ∈ l, (∀ e ∈ l, e = w ∨ klt (key w) (key e) = true) ∧
       (l.foldl (fun c e => (deliver c e nx).1) c).g.path = c.g.path ++ [w.cipher] ∧
       wc (l.foldl (fun c e => (deliver c e nx).1) c).g [] = wc (childG c w) [] ∧
       (getRec (l.foldl (fun c e => (deliver c e nx).1) c) w.n).map (·.state) = some 2 ∧
       ∀ e ∈ l, e ≠ w → ∃ r, getRec (l.foldl (fun c e => (deliver c e nx).1) c) e.n = some r ∧ (r.state = 3 ∨ r.state = 4) := by
-  have hb := base_of c hg hr hsec hm
-  have hSs := sibs_of c S hS
+  have hb := base_of c hg ha hr hsec hm
+  have hSs := sibs_of c S hn hS
   have hrel := rel_run c hb S hSs nx l c ⟨none, []⟩ (rel_init c hb S hSs) (by simp [FInv]) hl
   obtain ⟨ka, hka, hap, hmin, hblk⟩ := single_fork (l.map key) (by simpa using hne)
   obtain ⟨w, hwS, hwk, hcf, hrw⟩ := hrel.chi ka hap
@@ -113,23 +133,61 @@ theorem single_fork_bystander (c : Cl) (S : List Ev) (l : List Ev) (nx : Nat)
     obtain ⟨r, hr', hbr⟩ := hrel.blk e (hl e he) (hblk (key e) (List.mem_map.mpr ⟨e, he, rfl⟩) hk)
     exact ⟨r, hr', hbr.1⟩
 
-/-- the group name after a commit with body `b` -/
-def nameAfter (b : Body) (old : Nat) : Nat :=
+/-- the group data (the whole extension as modelled: name, description, admins, relays, nostr group id)
+    after a commit with body `b`: a data commit carries the whole new extension, every other commit keeps it -/
+def dataAfter (b : Body) (old : GData) : GData :=
   match b with
-  | .setName t => t
+  | .setData d => d
   | _ => old
 
-/-- what "the group data is `w`'s" means: name per the commit body, admins kept, no pending commit or
-    proposals, and the stored record in step with it -/
+/-- the member set after a commit with body `b` that swept the queued leave proposals `sw` -/
+def membersAfter (b : Body) (sw : List Nat) (old : List Nat) : List Nat :=
+  match b with
+  | .removeLeavers who => (old.filter (fun m => !(who.contains m))).filter (fun m => !(sw.contains m))
+  | .addMembers who => (old ++ who.filter (fun m => !(old.contains m))).filter (fun m => !(sw.contains m))
+  | _ => old.filter (fun m => !(sw.contains m))
+
+/-- what "the group state is `w`'s" means: name, description, admins, relays and nostr group id per the commit
+    body, members per body and swept proposals, no pending commit or proposals, and the stored record
+    (epoch, name, description, admins, relays, nostr group id) in step with it -/
 theorem childG_data (c : Cl) (w : Ev) (b : Body) (sw : List Nat) (hk : w.kind = .commit b sw) :
-    (childG c w).name = nameAfter b c.g.name ∧
-    (childG c w).admins = c.g.admins ∧ (childG c w).pending = none ∧ (childG c w).props = [] ∧
-    (childG c w).recName = (childG c w).name ∧ (childG c w).recEpoch = epochOf (childG c w).path := by
+    dataOf (childG c w) = dataAfter b (dataOf c.g) ∧
+    (childG c w).members = membersAfter b sw c.g.members ∧
+    (childG c w).pending = none ∧ (childG c w).props = [] ∧ Synced (childG c w) := by
   have e1 : (gP c).name = c.g.name := ensureSecret_name _
   have e2 : (gP c).admins = c.g.admins := ensureSecret_admins _
+  have e3 : (gP c).desc = c.g.desc := ensureSecret_desc _
+  have e4 : (gP c).relays = c.g.relays := ensureSecret_relays _
+  have e5 : (gP c).nid = c.g.nid := ensureSecret_nid _
+  have e6 : (gP c).members = c.g.members := ensureSecret_members _
   have hf := ensureSecret_fields (mergeCommit c.maxPast (gP c) w)
-  simp only [childG, syncRec, hf]
-  cases b <;> simp [mergeCommit, hk, applyBody, e1, e2, nameAfter]
+  have hd := ensureSecret_data (mergeCommit c.maxPast (gP c) w)
+  refine ⟨?_, ?_, ?_, ?_, synced_syncRec _⟩
+  all_goals simp only [childG, syncRec, dataOf, hf, hd]
+  all_goals cases b <;> simp [mergeCommit, hk, applyBody, e1, e2, e3, e4, e5, e6, dataAfter, membersAfter, dataOf]
+
+/-- `childG_data` field by field, for a data commit: every field of the group data is the commit's -/
+theorem childG_setData (c : Cl) (w : Ev) (d : GData) (sw : List Nat) (hk : w.kind = .commit (.setData d) sw) :
+    (childG c w).name = d.name ∧ (childG c w).desc = d.desc ∧ (childG c w).admins = d.admins ∧
+    (childG c w).relays = d.relays ∧ (childG c w).nid = d.nid ∧
+    (childG c w).recName = d.name ∧ (childG c w).recDesc = d.desc ∧ (childG c w).recAdmins = d.admins ∧
+    (childG c w).recRelays = d.relays ∧ (childG c w).recNid = d.nid := by
+  obtain ⟨h1, _, _, _, hs⟩ := childG_data c w _ sw hk
+  obtain ⟨_, s2, s3, s4, s5, s6⟩ := hs
+  simp only [dataOf, dataAfter] at h1
+  have a1 := congrArg GData.name h1
+  have a2 := congrArg GData.desc h1
+  have a3 := congrArg GData.admins h1
+  have a4 := congrArg GData.relays h1
+  have a5 := congrArg GData.nid h1
+  simp only at a1 a2 a3 a4 a5
+  exact ⟨a1, a2, a3, a4, a5, s2.trans a1, s4.trans a2, s3.trans a3, s5.trans a4, s6.trans a5⟩
+
+/-- … and for every other commit (self-update, removal of leavers) the group data is the parent's -/
+theorem childG_keeps_data (c : Cl) (w : Ev) (b : Body) (sw : List Nat) (hk : w.kind = .commit b sw)
+    (hb : ∀ d, b ≠ .setData d) : dataOf (childG c w) = dataOf c.g := by
+  rw [(childG_data c w b sw hk).1]
+  cases b <;> simp_all [dataAfter]
 
 /-! ### the excluded case: retention 0
 
@@ -140,14 +198,14 @@ theorem childG_data (c : Cl) (w : Ev) (b : Body) (sw : List Nat) (hk : w.kind = 
 
 /-- the statement without the retention hypothesis -/
 def single_fork_bystander_full : Prop :=
-  ∀ (c : Cl) (S l : List Ev) (nx : Nat), c.hasGroup = true → SecretsOK c.g → NoForkSnapshot c →
+  ∀ (c : Cl) (S l : List Ev) (nx : Nat), c.hasGroup = true → c.g.active = true → SecretsOK c.g → NoForkSnapshot c → c.g.recNid = c.g.nid →
     Siblings c S → (∀ e ∈ l, e ∈ S) → l ≠ [] →
     ∃ w ∈ l, (∀ e ∈ l, e = w ∨ klt (key w) (key e) = true) ∧
       (l.foldl (fun c e => (deliver c e nx).1) c).g.path = c.g.path ++ [w.cipher]
 
 def cA : Ev := { n := 1, ts := 20, idnum := 7, cipher := 1, sender := 1, path := [], kind := .commit .selfUpdate [] }
-def cB : Ev := { n := 2, ts := 19, idnum := 9, cipher := 2, sender := 0, path := [], kind := .commit (.setName 4) [] }
-def cC : Ev := { n := 3, ts := 19, idnum := 11, cipher := 3, sender := 0, path := [], kind := .commit (.setName 5) [] }
+def cB : Ev := { n := 2, ts := 19, idnum := 9, cipher := 2, sender := 0, path := [], kind := .commit (.setData { initData [0, 1] 1 with name := 4 }) [] }
+def cC : Ev := { n := 3, ts := 19, idnum := 11, cipher := 3, sender := 0, path := [], kind := .commit (.setData { initData [0, 1] 1 with name := 5 }) [] }
 def by0 (retention : Nat) : Cl := initCl 2 false retention [0, 1, 2] [0, 1] 1
 
 theorem by0_secrets (r : Nat) : SecretsOK (by0 r).g := by intro ep q h; simp [by0, initCl, initG, alookup] at h
@@ -160,13 +218,22 @@ theorem by0_siblings0 : Siblings (by0 0) [cA, cB, cC] where
     simp only [List.mem_cons, List.not_mem_nil, or_false] at he
     rcases he with rfl | rfl | rfl
     · exact ⟨.selfUpdate, [], rfl, by decide⟩
-    · exact ⟨.setName 4, [], rfl, by decide⟩
-    · exact ⟨.setName 5, [], rfl, by decide⟩
+    · exact ⟨_, [], rfl, by decide⟩
+    · exact ⟨_, [], rfl, by decide⟩
   foreign := by decide
   ts := by decide
   distinct := by decide
   unseen := by decide
   unconsumed := by decide
+  tag := by decide
+  keepsId := by
+    intro e he d sw hk
+    simp only [List.mem_cons, List.not_mem_nil, or_false] at he
+    rcases he with rfl | rfl | rfl <;> simp [cA, cB, cC] at hk <;> (obtain ⟨rfl, _⟩ := hk; rfl)
+  keepsMe := by
+    intro e he b sw hk
+    simp only [List.mem_cons, List.not_mem_nil, or_false] at he
+    rcases he with rfl | rfl | rfl <;> simp [cA, cB, cC] at hk <;> (obtain ⟨rfl, rfl⟩ := hk; rfl)
 
 theorem by0_siblings5 : Siblings (by0 5) [cA, cB, cC] where
   path := by decide
@@ -175,13 +242,22 @@ theorem by0_siblings5 : Siblings (by0 5) [cA, cB, cC] where
     simp only [List.mem_cons, List.not_mem_nil, or_false] at he
     rcases he with rfl | rfl | rfl
     · exact ⟨.selfUpdate, [], rfl, by decide⟩
-    · exact ⟨.setName 4, [], rfl, by decide⟩
-    · exact ⟨.setName 5, [], rfl, by decide⟩
+    · exact ⟨_, [], rfl, by decide⟩
+    · exact ⟨_, [], rfl, by decide⟩
   foreign := by decide
   ts := by decide
   distinct := by decide
   unseen := by decide
   unconsumed := by decide
+  tag := by decide
+  keepsId := by
+    intro e he d sw hk
+    simp only [List.mem_cons, List.not_mem_nil, or_false] at he
+    rcases he with rfl | rfl | rfl <;> simp [cA, cB, cC] at hk <;> (obtain ⟨rfl, _⟩ := hk; rfl)
+  keepsMe := by
+    intro e he b sw hk
+    simp only [List.mem_cons, List.not_mem_nil, or_false] at he
+    rcases he with rfl | rfl | rfl <;> simp [cA, cB, cC] at hk <;> (obtain ⟨rfl, rfl⟩ := hk; rfl)
 
 /-- `retention-zero-no-rollback`: A then the better B with retention 0 — the client stays on A -/
 theorem witness_retention_zero :
@@ -190,7 +266,7 @@ theorem witness_retention_zero :
 
 theorem single_fork_bystander_full_false : ¬ single_fork_bystander_full := by
   intro h
-  obtain ⟨w, hw, hmin, hpath⟩ := h (by0 0) [cA, cB, cC] [cA, cB] 0 rfl (by0_secrets 0) (by0_nosnap 0) by0_siblings0
+  obtain ⟨w, hw, hmin, hpath⟩ := h (by0 0) [cA, cB, cC] [cA, cB] 0 rfl rfl (by0_secrets 0) (by0_nosnap 0) rfl by0_siblings0
     (by decide) (by decide)
   have hwB : w = cB := by
     simp only [List.mem_cons, List.not_mem_nil, or_false] at hw
@@ -206,14 +282,139 @@ theorem single_fork_bystander_full_false : ¬ single_fork_bystander_full := by
 /-- non-vacuity: three siblings, a four-element delivery list with a repetition; the theorem applies
     (its hypotheses hold) and its conclusion is the MIP-03 winner B (ts 19, id 9 < C: ts 19, id 11 < A: ts 20) -/
 example : ∃ w ∈ [cA, cC, cA, cB], ([cA, cC, cA, cB].foldl (fun c e => (deliver c e 0).1) (by0 5)).g.path = (by0 5).g.path ++ [w.cipher] := by
-  obtain ⟨w, hw, _, hp, _⟩ := single_fork_bystander (by0 5) [cA, cB, cC] [cA, cC, cA, cB] 0 rfl (by decide)
-    (by0_secrets 5) (by0_nosnap 5) by0_siblings5 (by decide) (by decide)
+  obtain ⟨w, hw, _, hp, _⟩ := single_fork_bystander (by0 5) [cA, cB, cC] [cA, cC, cA, cB] 0 rfl rfl (by decide)
+    (by0_secrets 5) (by0_nosnap 5) rfl by0_siblings5 (by decide) (by decide)
   exact ⟨w, hw, hp⟩
 
 example : ([cA, cC, cA, cB].foldl (fun c e => (deliver c e 0).1) (by0 5)).g.path = [2] ∧
     ([cA, cC, cA, cB].foldl (fun c e => (deliver c e 0).1) (by0 5)).g.name = 4 ∧
     (getRec ([cA, cC, cA, cB].foldl (fun c e => (deliver c e 0).1) (by0 5)) 1).map (·.state) = some 4 ∧
     (getRec ([cA, cC, cA, cB].foldl (fun c e => (deliver c e 0).1) (by0 5)) 3).map (·.state) = some 4 := by decide
+
+/-! ### the excluded case: a sibling that rotates the nostr group id
+
+  Incoming events are looked up by their `h` tag among the ids in the stored records (`find_group_by_nostr_group_id`).
+  Once the client has applied a sibling that ROTATES the id, every other sibling — published under the id of the parent
+  state — is refused as `GroupNotFound` before any MIP-03 comparison: the client stays on the rotating sibling whatever
+  its rank (finding `h-rotation-in-flight`; replayed by corpus/C01/rotation_fork.trace). -/
+
+/-- the bystander statement for siblings that may rotate the id (`SiblingsCore`: everything but `keepsId`) -/
+def single_fork_any_id_full : Prop :=
+  ∀ (c : Cl) (S l : List Ev) (nx : Nat), c.hasGroup = true → c.g.active = true → 1 ≤ c.retention → SecretsOK c.g → NoForkSnapshot c →
+    c.g.recNid = c.g.nid → SiblingsCore c S → (∀ e ∈ S, ∀ b sw, e.kind = .commit b sw → removesMe c.id b sw = false) →
+    (∀ e ∈ l, e ∈ S) → l ≠ [] →
+    ∃ w ∈ l, (∀ e ∈ l, e = w ∨ klt (key w) (key e) = true) ∧
+      (l.foldl (fun c e => (deliver c e nx).1) c).g.path = c.g.path ++ [w.cipher]
+
+/-- admin 0 rotates the nostr group id (0 → 8), wrapper timestamp 20: loses to `cB` (timestamp 19) by MIP-03 -/
+def cR : Ev := { n := 4, ts := 20, idnum := 5, cipher := 4, sender := 0, path := [], kind := .commit (.setData { initData [0, 1] 1 with nid := 8 }) [] }
+
+theorem by0_siblings_rot : SiblingsCore (by0 5) [cR, cB] where
+  path := by decide
+  kind := by
+    intro e he
+    simp only [List.mem_cons, List.not_mem_nil, or_false] at he
+    rcases he with rfl | rfl
+    · exact ⟨_, [], rfl, by decide⟩
+    · exact ⟨_, [], rfl, by decide⟩
+  foreign := by decide
+  ts := by decide
+  distinct := by decide
+  unseen := by decide
+  unconsumed := by decide
+  tag := by decide
+
+/-- the rotating sibling first, then the MIP-03 winner: not found, recorded Failed without epoch, the client stays -/
+theorem witness_rotation_fork :
+    (deliver (deliver (by0 5) cR 0).1 cB 0).2 = .err eGroupNotFound ∧
+    ([cR, cB].foldl (fun c e => (deliver c e 0).1) (by0 5)).g.path = [4] ∧
+    ([cR, cB].foldl (fun c e => (deliver c e 0).1) (by0 5)).g.recNid = 8 ∧
+    (getRec ([cR, cB].foldl (fun c e => (deliver c e 0).1) (by0 5)) 2) = some { state := 3, epoch := none, hasGroup := false, mid := none } ∧
+    -- the other order is fine: the winner first, then the rotation is an ordinary worse sibling
+    ([cB, cR].foldl (fun c e => (deliver c e 0).1) (by0 5)).g.path = [2] := by decide
+
+theorem single_fork_any_id_full_false : ¬ single_fork_any_id_full := by
+  intro h
+  obtain ⟨w, hw, hmin, hpath⟩ := h (by0 5) [cR, cB] [cR, cB] 0 rfl rfl (by decide) (by0_secrets 5) (by0_nosnap 5) rfl by0_siblings_rot
+    (by
+      intro e he b sw hk
+      simp only [List.mem_cons, List.not_mem_nil, or_false] at he
+      rcases he with rfl | rfl <;> simp [cR, cB] at hk <;> (obtain ⟨rfl, rfl⟩ := hk; rfl))
+    (by decide) (by decide)
+  have hwB : w = cB := by
+    simp only [List.mem_cons, List.not_mem_nil, or_false] at hw
+    rcases hw with rfl | rfl
+    · rcases hmin cB (by decide) with x | x
+      · exact x.symm
+      · revert x; decide
+    · rfl
+  subst hwB
+  rw [witness_rotation_fork.2.1] at hpath
+  revert hpath; decide
+
+/-! ### the excluded case: a sibling that removes the receiver
+
+  `process_commit` merges a commit that removes the receiver's own leaf and marks the group Inactive at once
+  (`handle_local_member_eviction`) — whatever the commit's MIP-03 rank.  From then on every event fails before it is
+  even opened (`exporter_secret()?` of an inactive group), so a better sibling that arrives later is never compared
+  and never rolled back to: the member stays locked out although the branch everybody else converges on still has
+  it as a member (finding `evicted-by-losing-commit`; replayed by corpus/C01/evicted_by_losing_commit.trace). -/
+
+/-- the bystander statement for siblings that may remove the receiver (everything but `keepsMe`) -/
+def single_fork_any_target_full : Prop :=
+  ∀ (c : Cl) (S l : List Ev) (nx : Nat), c.hasGroup = true → c.g.active = true → 1 ≤ c.retention → SecretsOK c.g → NoForkSnapshot c →
+    c.g.recNid = c.g.nid → SiblingsCore c S → (∀ e ∈ S, ∀ d sw, e.kind = .commit (.setData d) sw → d.nid = c.g.recNid) →
+    (∀ e ∈ l, e ∈ S) → l ≠ [] →
+    ∃ w ∈ l, (∀ e ∈ l, e = w ∨ klt (key w) (key e) = true) ∧
+      (l.foldl (fun c e => (deliver c e nx).1) c).g.path = c.g.path ++ [w.cipher]
+
+/-- admin 0 removes member 2 (the receiver), wrapper timestamp 20: loses to `cB` (timestamp 19) by MIP-03 -/
+def cX : Ev := { n := 4, ts := 20, idnum := 5, cipher := 4, sender := 0, path := [], kind := .commit (.removeLeavers [2]) [] }
+
+theorem by0_siblings_evict : SiblingsCore (by0 5) [cX, cB] where
+  path := by decide
+  kind := by
+    intro e he
+    simp only [List.mem_cons, List.not_mem_nil, or_false] at he
+    rcases he with rfl | rfl
+    · exact ⟨_, [], rfl, by decide⟩
+    · exact ⟨_, [], rfl, by decide⟩
+  foreign := by decide
+  ts := by decide
+  distinct := by decide
+  unseen := by decide
+  unconsumed := by decide
+  tag := by decide
+
+/-- the removal first, then the MIP-03 winner (in which the receiver is still a member): evicted for good -/
+theorem witness_evicted_by_losing_sibling :
+    (deliver (by0 5) cX 0).2 = .commit ∧ (deliver (by0 5) cX 0).1.g.active = false ∧
+    (deliver (deliver (by0 5) cX 0).1 cB 0).2 = .err eExportSecret ∧
+    ([cX, cB].foldl (fun c e => (deliver c e 0).1) (by0 5)).g.path = [4] ∧
+    ([cX, cB].foldl (fun c e => (deliver c e 0).1) (by0 5)).g.active = false ∧
+    -- the other order: the winner first, the removal is refused as worse, the receiver stays a member
+    ([cB, cX].foldl (fun c e => (deliver c e 0).1) (by0 5)).g.path = [2] ∧
+    ([cB, cX].foldl (fun c e => (deliver c e 0).1) (by0 5)).g.active = true ∧
+    ([cB, cX].foldl (fun c e => (deliver c e 0).1) (by0 5)).g.members = [0, 1, 2] := by decide
+
+theorem single_fork_any_target_full_false : ¬ single_fork_any_target_full := by
+  intro h
+  obtain ⟨w, hw, hmin, hpath⟩ := h (by0 5) [cX, cB] [cX, cB] 0 rfl rfl (by decide) (by0_secrets 5) (by0_nosnap 5) rfl by0_siblings_evict
+    (by
+      intro e he d sw hk
+      simp only [List.mem_cons, List.not_mem_nil, or_false] at he
+      rcases he with rfl | rfl <;> simp [cX, cB] at hk <;> (obtain ⟨rfl, _⟩ := hk; rfl))
+    (by decide) (by decide)
+  have hwB : w = cB := by
+    simp only [List.mem_cons, List.not_mem_nil, or_false] at hw
+    rcases hw with rfl | rfl
+    · rcases hmin cB (by decide) with x | x
+      · exact x.symm
+      · revert x; decide
+    · rfl
+  subst hwB
+  rw [witness_evicted_by_losing_sibling.2.2.2.1] at hpath
+  revert hpath; decide
 
 /-! ### the ciphertext hypotheses are needed too
 
@@ -254,6 +455,9 @@ structure OwnCommit (c : Cl) (o : Ev) : Prop where
   ts : o.ts ≠ 0
   pending : c.g.pending = some o
   record : getRec c o.n = some { state := 2, epoch := some (epochOf c.g.path), hasGroup := true, mid := none }
+  tag : o.tag = c.g.recNid
+  keepsId : ∀ d sw, o.kind = .commit (.setData d) sw → d.nid = c.g.recNid
+  keepsMe : ∀ b sw, o.kind = .commit b sw → removesMe c.id b sw = false
 
 theorem secretsOK_ensure (g : GState) (h : SecretsOK g) : SecretsOK (ensureSecret g) := by
   unfold ensureSecret
@@ -269,12 +473,15 @@ theorem secretsOK_ensure (g : GState) (h : SecretsOK g) : SecretsOK (ensureSecre
     · rw [Store.alookup_ainsert_ne _ _ _ _ c] at hq
       exact h ep q hq
 
-/-- `self_update` / `update_group_data` (stage + publish) establishes the committer's hypotheses -/
+/-- `self_update` / `update_group_data` (stage + publish) establishes the committer's hypotheses — for a
+    commit that does not rotate the nostr group id -/
 theorem stage_own_commit (c : Cl) (n ts idn : Nat) (b : Body) (na : Bool) (o : Ev)
     (hts : ts ≠ 0) (hsec : SecretsOK c.g) (hm : NoForkSnapshot c)
+    (hk : ∀ d, b = .setData d → d.nid = c.g.recNid) (hme : removesMe c.id b c.g.props = false)
     (h : (stageCommit c n ts idn b na).2 = .ev o) :
     OwnCommit (stageCommit c n ts idn b na).1 o ∧ SecretsOK (stageCommit c n ts idn b na).1.g ∧
-    NoForkSnapshot (stageCommit c n ts idn b na).1 ∧ (stageCommit c n ts idn b na).1.g.path = c.g.path := by
+    NoForkSnapshot (stageCommit c n ts idn b na).1 ∧ (stageCommit c n ts idn b na).1.g.path = c.g.path ∧
+    (stageCommit c n ts idn b na).1.g.recNid = c.g.recNid ∧ (stageCommit c n ts idn b na).1.g.nid = c.g.nid := by
   unfold stageCommit at h ⊢
   split at h
   · cases h
@@ -282,23 +489,35 @@ theorem stage_own_commit (c : Cl) (n ts idn : Nat) (b : Body) (na : Bool) (o : E
     · cases h
     · split at h
       · cases h
-      · rename_i h1 h2 h3
-        simp only [h1, h2, h3, if_false, Bool.false_eq_true] at h ⊢
-        cases h
-        refine ⟨⟨by simp [setRec], ⟨b, _, rfl⟩, rfl, hts, by simp [setRec], ?_⟩, ?_, ?_, by simp [setRec]⟩
-        · simp [setRec, getRec, Store.alookup_ainsert_self]
-        · intro ep q hq
-          have := secretsOK_ensure c.g hsec ep q (by simpa [setRec] using hq)
-          simpa [setRec] using this
-        · intro s hs
-          have := hm s (by simpa [setRec] using hs)
-          simpa [setRec] using this
+      · split at h
+        · cases h
+        · rename_i h1 h0 h2 h3
+          simp only [h1, h0, h2, h3, if_false, Bool.false_eq_true] at h ⊢
+          cases h
+          refine ⟨⟨by simp [setRec], ⟨b, _, rfl⟩, rfl, hts, by simp [setRec], ?_, by simp [setRec], ?_, ?_⟩, ?_, ?_, by simp [setRec],
+            by simp [setRec], by simp [setRec]⟩
+          · simp [setRec, getRec, Store.alookup_ainsert_self]
+          · intro d sw hd
+            simp only [Kind.commit.injEq] at hd
+            have := hk d hd.1
+            simpa [setRec] using this
+          · intro b' sw' hd
+            simp only [Kind.commit.injEq] at hd
+            obtain ⟨rfl, rfl⟩ := hd
+            simpa [setRec] using hme
+          · intro ep q hq
+            have := secretsOK_ensure c.g hsec ep q (by simpa [setRec] using hq)
+            simpa [setRec] using this
+          · intro s hs
+            have := hm s (by simpa [setRec] using hs)
+            simpa [setRec] using this
 
-theorem sibs2_of (c : Cl) (o : Ev) (S : List Ev) (ho : OwnCommit c o) (h : Siblings c S)
+theorem sibs2_of (c : Cl) (o : Ev) (S : List Ev) (hn : c.g.recNid = c.g.nid) (ho : OwnCommit c o) (h : Siblings c S)
     (hd : ∀ e ∈ S, e.n ≠ o.n ∧ (e.ts, e.idnum) ≠ (o.ts, o.idnum)) : Sibs2 c o S where
-  own := ⟨ho.path, ho.kind, by simp [ho.own], ho.ts, ho.pending, ho.record⟩
-  sib := (sibs_of c S h).sib
-  cinj := (sibs_of c S h).cinj
+  own := ⟨ho.path, ho.kind, by simp [ho.own], ho.ts, ho.pending, ho.record, ho.tag,
+    fun b sw hk => keeps_nid c hn b (fun d hd => ho.keepsId d sw (by rw [hk, hd])), ho.keepsMe⟩
+  sib := (sibs_of c S hn h).sib
+  cinj := (sibs_of c S hn h).cinj
   inj := by
     intro e1 h1 e2 h2 hk
     rcases List.mem_cons.mp h1 with rfl | h1' <;> rcases List.mem_cons.mp h2 with rfl | h2'
@@ -311,7 +530,7 @@ theorem sibs2_of (c : Cl) (o : Ev) (S : List Ev) (ho : OwnCommit c o) (h : Sibli
       rcases hk with y | y
       · exact absurd y a
       · exact absurd y b
-    · exact (sibs_of c S h).inj e1 h1' e2 h2' hk
+    · exact (sibs_of c S hn h).inj e1 h1' e2 h2' hk
   norec := h.unseen
 
 /-- **single_fork (committer, own commit applied on echo)**: for every delivery list over the own
@@ -319,7 +538,8 @@ theorem sibs2_of (c : Cl) (o : Ev) (S : List Ev) (ho : OwnCommit c o) (h : Sibli
     minimum `w` of the delivered ones, with `w`'s group state (no pending commit left), `w`'s record
     ProcessedCommit, and every other delivered FOREIGN sibling blocked -/
 theorem single_fork_committer (c : Cl) (o : Ev) (S : List Ev) (l : List Ev) (nx : Nat)
-    (hg : c.hasGroup = true) (hr : 1 ≤ c.retention) (hsec : SecretsOK c.g) (hm : NoForkSnapshot c)
+    (hg : c.hasGroup = true) (ha : c.g.active = true) (hr : 1 ≤ c.retention) (hsec : SecretsOK c.g) (hm : NoForkSnapshot c)
+    (hn : c.g.recNid = c.g.nid)
     (ho : OwnCommit c o) (hS : Siblings c S)
     (hd : ∀ e ∈ S, e.n ≠ o.n ∧ (e.ts, e.idnum) ≠ (o.ts, o.idnum))
     (hl : ∀ e ∈ l, e ∈ o :: S) (hne : l ≠ []) :
@@ -329,8 +549,8 @@ theorem single_fork_committer (c : Cl) (o : Ev) (S : List Ev) (l : List Ev) (nx 
       (l.foldl (fun c e => (deliver c e nx).1) c).g.pending = none ∧
       (getRec (l.foldl (fun c e => (deliver c e nx).1) c) w.n).map (·.state) = some 2 ∧
       ∀ e ∈ l, e ≠ w → e ≠ o → ∃ r, getRec (l.foldl (fun c e => (deliver c e nx).1) c) e.n = some r ∧ (r.state = 3 ∨ r.state = 4) := by
-  have hb := base_of c hg hr hsec hm
-  have hSs := sibs2_of c o S ho hS hd
+  have hb := base_of c hg ha hr hsec hm
+  have hSs := sibs2_of c o S hn ho hS hd
   have hrel := rel2_run c hb o S hSs nx l c ⟨none, []⟩ (rel2_init c hb o S hSs) (by simp [FInv]) hl
   obtain ⟨ka, hka, hap, hmin, hblk⟩ := single_fork2 (key o) (l.map key) (by simpa using hne)
   obtain ⟨w, hwT, hwk, hcf, hrw⟩ := hrel.chi ka hap
@@ -386,6 +606,10 @@ theorem reachable_hinv (id : Nat) (p : Bool) (r : Nat) (ms as : List Nat) (name 
       | deliver e nx => exact hinv_deliverN 3 nx c e h
       | send n ts idn mid mts tok => exact hinv_send c n ts idn mid mts tok h
       | stage n ts idn b na => exact hinv_stageCommit c n ts idn b na h
+      | data n ts idn u => exact hinv_updateData c n ts idn u h
+      | remove n ts idn who => exact hinv_removeMembers c n ts idn who h
+      | add n ts idn who => exact hinv_addMembers c n ts idn who h
+      | join mp g e => exact hinv_join c mp g e h
       | leave n ts idn => exact hinv_leave c n ts idn h
       | merge => exact hinv_merge c h
       | clear => exact hinv_clear c h
@@ -407,13 +631,15 @@ theorem secrets_follow_path (id : Nat) (p : Bool) (r : Nat) (ms as : List Nat) (
 theorem single_fork_reachable (id : Nat) (p : Bool) (r : Nat) (ms as : List Nat) (name : Nat) (ops : List C08.COp)
     (S l : List Ev) (nx : Nat)
     (hg : (ops.foldl C08.cstep (initCl id p r ms as name)).hasGroup = true)
+    (ha : (ops.foldl C08.cstep (initCl id p r ms as name)).g.active = true)
     (hr : 1 ≤ (ops.foldl C08.cstep (initCl id p r ms as name)).retention)
     (hS : Siblings (ops.foldl C08.cstep (initCl id p r ms as name)) S) (hl : ∀ e ∈ l, e ∈ S) (hne : l ≠ []) :
     ∃ w ∈ l, (∀ e ∈ l, e = w ∨ klt (key w) (key e) = true) ∧
       (l.foldl (fun c e => (deliver c e nx).1) (ops.foldl C08.cstep (initCl id p r ms as name))).g.path =
         (ops.foldl C08.cstep (initCl id p r ms as name)).g.path ++ [w.cipher] := by
   obtain ⟨h1, h2, _⟩ := secrets_follow_path id p r ms as name ops
-  obtain ⟨w, hw, hmin, hp, _⟩ := single_fork_bystander _ S l nx hg hr h1 h2 hS hl hne
+  have hn := (C08.sync_inv id p r ms as name ops ha).2.2.2.2.2
+  obtain ⟨w, hw, hmin, hp, _⟩ := single_fork_bystander _ S l nx hg ha hr h1 h2 hn hS hl hne
   exact ⟨w, hw, hmin, hp⟩
 
 end MdkVerif.Props.C01Fork
